@@ -13,7 +13,7 @@
 -/
 import Abnf.Equiv
 import Abnf.AcceptOn
-import Abnf.Theorems.C09
+import Abnf.Obligations.BundledFacts
 import AbnfGen.Bundled
 import AbnfGen.Pairs
 namespace Abnf.C19
